@@ -30,13 +30,15 @@ def reader_keys(ctx: Ctx) -> set[str]:
     if len(loops) != 1:
         raise AnalysisError("parse_yaml_module: key dispatch loop not found")
     kv = loops[0][1][1][0]
-    for cnd in atoms_of(loops[0][3], lambda x: x[0] == "cmp" and x[1] in ("in", "seq")):
-        if cnd[1] == "in" and cnd[2] == kv and cnd[3][0] in ("list", "tuple", "set"):
-            keys |= {k[2] for k in cnd[3][1] if k[0] == "k" and k[1] == "str"}
-        if cnd[1] == "seq" and kv in (cnd[2], cnd[3]):
-            other = cnd[2] if cnd[3] == kv else cnd[3]
-            if other[0] == "k" and other[1] == "str":
-                keys.add(other[2])
+    from .common import eq_constants
+    for st in atoms_of(loops[0][3], lambda x: x[0] == "if" and len(x) == 4):
+        ks = eq_constants(st[1], kv)
+        if ks is None:
+            from framelint.canon import mk_not as _mk_not
+            ks = eq_constants(_mk_not(st[1]), kv)      # a refusing 'key is none of ...' arm names the same keys
+        for k in ks or ():
+            if k[0] == "k" and k[1] == "str":
+                keys.add(k[2])
     return keys
 
 
